@@ -21,11 +21,12 @@ var gens = map[string]genFn{
 	"hist":    genHist,    // arbitrary histories of writes / mismatched reads / rewrites / queries (CHist)
 	"arb":     genArb,     // crafted and arbitrary bytes as decoder input (CHist with init)
 	"rewrite": genRewrite, // Bytes(); ReWrite / ReWriteU32; Bytes()  (CReWrite)
-	"stream":  genStream,  // ReaderX over a fragmenting source vs. BufferX over the same bytes (CStream)
+	"stream":  genStream,  // ReaderX over a fragmenting source of several concrete reader types vs. BufferX (CStream)
+	"hold":    genHold,    // results of reads kept uncopied while the buffer is reused, looked at again at the end (CHold)
 }
 
 // order matters for reproducibility (map iteration is random)
-var genOrder = []string{"round", "hist", "arb", "rewrite", "stream"}
+var genOrder = []string{"round", "hist", "arb", "rewrite", "stream", "hold"}
 
 func main() {
 	vh.Main("c10", func(e *vh.Env) {
@@ -55,6 +56,7 @@ func main() {
 			"arb":     e.Scale(500, 8000),
 			"rewrite": e.Scale(300, 4000),
 			"stream":  e.Scale(700, 12000),
+			"hold":    e.Scale(250, 4000),
 		}
 		if e.Search && e.Focus != "" {
 			f := strings.SplitN(e.Focus, "/", 2)[0]
@@ -79,7 +81,7 @@ func main() {
 				}
 			}
 		}
-		e.Meta["generator"] = "c10/v1"
+		e.Meta["generator"] = "c10/v2"
 		e.Meta["experiments"] = vol
 		e.Meta["string_prefix_cap_stream"] = prefixCap
 	})
